@@ -98,6 +98,7 @@ type Scenario struct {
 	// attributes, so every other attribute becomes a filtered attribute of the exemplar
 	ExtraScopes [][]AttrJ `json:"extra_scopes,omitempty"` // further meters: same name / version, these instrumentation attributes
 	ExtraValues []float64 `json:"extra_values,omitempty"`
+	ExtraDescs  []string  `json:"extra_descs,omitempty"` // descriptions of the instrument on the further meters (default: the same)
 	FailingCallback bool  `json:"failing_callback,omitempty"`
 	Exemplars bool     `json:"exemplars,omitempty"`
 	TraceID   string   `json:"trace_id,omitempty"`
@@ -145,6 +146,7 @@ type SeriesJ struct {
 }
 
 type FamilyJ struct {
+	Help   string    `json:"help"`
 	Name   string    `json:"name"`
 	Type   int32     `json:"type"`
 	Series []SeriesJ `json:"series"`
@@ -246,11 +248,19 @@ func runScenario(sc Scenario) (ob Obs) {
 		mOpts = append(mOpts, metric.WithInstrumentationAttributes(skvs...))
 	}
 	m := mp.Meter(sc.ScopeName, mOpts...)
-	ob.ScopeAttrs = attrKVs(attribute.NewSet(append(append([]attribute.KeyValue{}, skvs...),
+	// expected input of otel_scope_info: the scope attributes, with the meter's REAL name and version under the reserved keys
+	// (an attribute that uses a reserved key itself must lose)
+	var nonReserved []attribute.KeyValue
+	for _, kv := range skvs {
+		if kv.Key != "otel_scope_name" && kv.Key != "otel_scope_version" {
+			nonReserved = append(nonReserved, kv)
+		}
+	}
+	ob.ScopeAttrs = attrKVs(attribute.NewSet(append(nonReserved,
 		attribute.String("otel_scope_name", sc.ScopeName), attribute.String("otel_scope_version", sc.ScopeVer))...))
 
 	// drive creates the scenario's instrument on a meter and records the points through it
-	drive := func(m metric.Meter, points []PointJ) error {
+	drive := func(m metric.Meter, points []PointJ, desc string) error {
 		var ierr error
 		sets := make([]attribute.Set, len(points))
 		for i, p := range points {
@@ -262,7 +272,7 @@ func runScenario(sc Scenario) (ob Obs) {
 		}
 		switch sc.Inst {
 		case "i64counter":
-			c, e := m.Int64Counter(sc.Name, metric.WithUnit(sc.Unit), metric.WithDescription(sc.Desc))
+			c, e := m.Int64Counter(sc.Name, metric.WithUnit(sc.Unit), metric.WithDescription(desc))
 			ierr = e
 			for i, p := range points {
 				for _, v := range p.Values {
@@ -270,7 +280,7 @@ func runScenario(sc Scenario) (ob Obs) {
 				}
 			}
 		case "f64counter":
-			c, e := m.Float64Counter(sc.Name, metric.WithUnit(sc.Unit), metric.WithDescription(sc.Desc))
+			c, e := m.Float64Counter(sc.Name, metric.WithUnit(sc.Unit), metric.WithDescription(desc))
 			ierr = e
 			for i, p := range points {
 				for _, v := range p.Values {
@@ -278,7 +288,7 @@ func runScenario(sc Scenario) (ob Obs) {
 				}
 			}
 		case "i64updown":
-			c, e := m.Int64UpDownCounter(sc.Name, metric.WithUnit(sc.Unit), metric.WithDescription(sc.Desc))
+			c, e := m.Int64UpDownCounter(sc.Name, metric.WithUnit(sc.Unit), metric.WithDescription(desc))
 			ierr = e
 			for i, p := range points {
 				for _, v := range p.Values {
@@ -286,7 +296,7 @@ func runScenario(sc Scenario) (ob Obs) {
 				}
 			}
 		case "f64updown":
-			c, e := m.Float64UpDownCounter(sc.Name, metric.WithUnit(sc.Unit), metric.WithDescription(sc.Desc))
+			c, e := m.Float64UpDownCounter(sc.Name, metric.WithUnit(sc.Unit), metric.WithDescription(desc))
 			ierr = e
 			for i, p := range points {
 				for _, v := range p.Values {
@@ -294,7 +304,7 @@ func runScenario(sc Scenario) (ob Obs) {
 				}
 			}
 		case "i64gauge":
-			c, e := m.Int64Gauge(sc.Name, metric.WithUnit(sc.Unit), metric.WithDescription(sc.Desc))
+			c, e := m.Int64Gauge(sc.Name, metric.WithUnit(sc.Unit), metric.WithDescription(desc))
 			ierr = e
 			for i, p := range points {
 				for _, v := range p.Values {
@@ -302,7 +312,7 @@ func runScenario(sc Scenario) (ob Obs) {
 				}
 			}
 		case "f64gauge":
-			c, e := m.Float64Gauge(sc.Name, metric.WithUnit(sc.Unit), metric.WithDescription(sc.Desc))
+			c, e := m.Float64Gauge(sc.Name, metric.WithUnit(sc.Unit), metric.WithDescription(desc))
 			ierr = e
 			for i, p := range points {
 				for _, v := range p.Values {
@@ -310,7 +320,7 @@ func runScenario(sc Scenario) (ob Obs) {
 				}
 			}
 		case "i64hist", "i64expohist":
-			o := []metric.Int64HistogramOption{metric.WithUnit(sc.Unit), metric.WithDescription(sc.Desc)}
+			o := []metric.Int64HistogramOption{metric.WithUnit(sc.Unit), metric.WithDescription(desc)}
 			if sc.HasBounds {
 				o = append(o, metric.WithExplicitBucketBoundaries(sc.Bounds...))
 			}
@@ -322,7 +332,7 @@ func runScenario(sc Scenario) (ob Obs) {
 				}
 			}
 		case "f64hist", "f64expohist":
-			o := []metric.Float64HistogramOption{metric.WithUnit(sc.Unit), metric.WithDescription(sc.Desc)}
+			o := []metric.Float64HistogramOption{metric.WithUnit(sc.Unit), metric.WithDescription(desc)}
 			if sc.HasBounds {
 				o = append(o, metric.WithExplicitBucketBoundaries(sc.Bounds...))
 			}
@@ -344,11 +354,11 @@ func runScenario(sc Scenario) (ob Obs) {
 			}
 			switch sc.Inst {
 			case "i64obscounter":
-				_, ierr = m.Int64ObservableCounter(sc.Name, metric.WithUnit(sc.Unit), metric.WithDescription(sc.Desc), metric.WithInt64Callback(cb))
+				_, ierr = m.Int64ObservableCounter(sc.Name, metric.WithUnit(sc.Unit), metric.WithDescription(desc), metric.WithInt64Callback(cb))
 			case "i64obsupdown":
-				_, ierr = m.Int64ObservableUpDownCounter(sc.Name, metric.WithUnit(sc.Unit), metric.WithDescription(sc.Desc), metric.WithInt64Callback(cb))
+				_, ierr = m.Int64ObservableUpDownCounter(sc.Name, metric.WithUnit(sc.Unit), metric.WithDescription(desc), metric.WithInt64Callback(cb))
 			default:
-				_, ierr = m.Int64ObservableGauge(sc.Name, metric.WithUnit(sc.Unit), metric.WithDescription(sc.Desc), metric.WithInt64Callback(cb))
+				_, ierr = m.Int64ObservableGauge(sc.Name, metric.WithUnit(sc.Unit), metric.WithDescription(desc), metric.WithInt64Callback(cb))
 			}
 		case "f64obscounter", "f64obsupdown", "f64obsgauge":
 			cb := func(_ context.Context, o metric.Float64Observer) error {
@@ -361,18 +371,18 @@ func runScenario(sc Scenario) (ob Obs) {
 			}
 			switch sc.Inst {
 			case "f64obscounter":
-				_, ierr = m.Float64ObservableCounter(sc.Name, metric.WithUnit(sc.Unit), metric.WithDescription(sc.Desc), metric.WithFloat64Callback(cb))
+				_, ierr = m.Float64ObservableCounter(sc.Name, metric.WithUnit(sc.Unit), metric.WithDescription(desc), metric.WithFloat64Callback(cb))
 			case "f64obsupdown":
-				_, ierr = m.Float64ObservableUpDownCounter(sc.Name, metric.WithUnit(sc.Unit), metric.WithDescription(sc.Desc), metric.WithFloat64Callback(cb))
+				_, ierr = m.Float64ObservableUpDownCounter(sc.Name, metric.WithUnit(sc.Unit), metric.WithDescription(desc), metric.WithFloat64Callback(cb))
 			default:
-				_, ierr = m.Float64ObservableGauge(sc.Name, metric.WithUnit(sc.Unit), metric.WithDescription(sc.Desc), metric.WithFloat64Callback(cb))
+				_, ierr = m.Float64ObservableGauge(sc.Name, metric.WithUnit(sc.Unit), metric.WithDescription(desc), metric.WithFloat64Callback(cb))
 			}
 		default:
 			return errors.New("unknown instrument " + sc.Inst)
 		}
 		return ierr
 	}
-	ierr := drive(m, sc.Points)
+	ierr := drive(m, sc.Points, sc.Desc)
 	// further meters with the SAME name, version and schema URL that differ only in their instrumentation attributes:
 	// each is a scope of its own (own otel_scope_info series); their points carry a distinguishing attribute
 	ob.ScopeInputs = append(ob.ScopeInputs, ob.ScopeAttrs)
@@ -385,7 +395,11 @@ func runScenario(sc Scenario) (ob Obs) {
 		ob.ScopeInputs = append(ob.ScopeInputs, attrKVs(attribute.NewSet(append(append([]attribute.KeyValue{}, ekvs...),
 			attribute.String("otel_scope_name", sc.ScopeName), attribute.String("otel_scope_version", sc.ScopeVer))...)))
 		pts := []PointJ{{Attrs: []AttrJ{{K: "zsc", T: "i", I: int64(j + 1)}}, Values: sc.ExtraValues}}
-		if e := drive(em, pts); e != nil && ierr == nil {
+		desc := sc.Desc
+		if j < len(sc.ExtraDescs) {
+			desc = sc.ExtraDescs[j]
+		}
+		if e := drive(em, pts, desc); e != nil && ierr == nil {
 			ierr = e
 		}
 	}
@@ -557,7 +571,7 @@ func sdkSeries(d metricdata.Aggregation, tid, sid string) []SeriesJ {
 }
 
 func familyJ(mf *dto.MetricFamily) FamilyJ {
-	f := FamilyJ{Name: mf.GetName(), Type: int32(mf.GetType())}
+	f := FamilyJ{Name: mf.GetName(), Type: int32(mf.GetType()), Help: mf.GetHelp()}
 	for _, m := range mf.GetMetric() {
 		s := SeriesJ{}
 		var sn, sv *string
@@ -950,6 +964,10 @@ func genScenario(r *vgen.Rand, id int, utf8 bool) Scenario {
 	// scope attributes: colliding keys; rarely a key that cannot become a label (known class F-C18-2: the whole scope is skipped)
 	if r.Chance(1, 4) {
 		sc.ScopeAttrs = genAttrs(r, r.Intn(4)+1, r.Chance(1, 6))
+		if r.Chance(1, 3) { // keys that are, or sanitise to, the reserved scope labels must not override the real name / version
+			sc.ScopeAttrs = append(sc.ScopeAttrs, AttrJ{K: vgen.Pick(r, []string{"otel_scope_name", "otel_scope_version", "otel.scope.name", "otel.scope.version", "otel-scope-name"}),
+				T: "s", S: vgen.Pick(r, []string{"fake", "", "zz"})})
+		}
 	}
 	// several meters with the same name and version that differ only in their instrumentation attributes
 	if r.Chance(1, 6) {
@@ -967,6 +985,11 @@ func genScenario(r *vgen.Rand, id int, utf8 bool) Scenario {
 			sc.ExtraScopes = append(sc.ExtraScopes, extra)
 		}
 		sc.ExtraValues = genValues(r, sc.Inst)
+		if r.Bool() { // the same instrument name with other descriptions on the further meters
+			for range sc.ExtraScopes {
+				sc.ExtraDescs = append(sc.ExtraDescs, vgen.Pick(r, []string{"", "a description", "another description"}))
+			}
+		}
 	}
 	// an observable callback that fails during the scrape while the scenario's instrument holds data
 	sc.FailingCallback = r.Chance(1, 6)
@@ -1098,6 +1121,26 @@ func fixedCorpus(utf8 bool) []Scenario {
 		mk("expo.zero.only", "1", inst, func(s *Scenario) { s.Points = []PointJ{{Values: []float64{0, 0}}} })
 		mk("expo.two.points", "s", inst, func(s *Scenario) {
 			s.Points = []PointJ{{Values: []float64{-1000, 1}}, {Attrs: []AttrJ{{K: "zid", T: "i", I: 1}}, Values: []float64{-1, 1000, 2}}}
+		})
+	}
+	// reserved scope labels as attribute keys
+	for _, k := range []string{"otel_scope_name", "otel_scope_version", "otel.scope.name", "otel.scope.version"} {
+		k := k
+		mk("scope.reserved", "s", "i64counter", func(s *Scenario) { s.ScopeName = "real"; s.ScopeVer = "v1"; s.ScopeAttrs = []AttrJ{{K: k, T: "s", S: "fake"}, {K: "other", T: "s", S: "x"}} })
+	}
+	// one instrument name on two meters with different descriptions, in both orders
+	for _, ds := range [][2]string{{"", "described"}, {"described", ""}, {"one", "two"}, {"same", "same"}, {"", ""}} {
+		ds := ds
+		name := "help.pair"
+		if ds[0] == "" && ds[1] != "" {
+			name = "help.empty.first"
+		}
+		mk(name, "s", "i64counter", func(s *Scenario) {
+			s.Desc = ds[0]
+			s.ScopeAttrs = []AttrJ{{K: "shard", T: "i", I: 0}}
+			s.ExtraScopes = [][]AttrJ{{{K: "shard", T: "i", I: 1}}}
+			s.ExtraValues = []float64{2}
+			s.ExtraDescs = []string{ds[1]}
 		})
 	}
 	// meters that differ only in their attributes (pairs and triples); a failing callback beside data
@@ -1408,7 +1451,11 @@ func emit(w *vgen.Writer, sc Scenario, ob Obs) {
 		w.Violation("unexpected SDK error: "+ob.SDKErr+" "+ob.InstErr, desc)
 		return
 	}
-	if ob.Unstable {
+	descsVary := false
+	for _, d := range sc.ExtraDescs {
+		descsVary = descsVary || d != sc.Desc
+	}
+	if ob.Unstable && !(descsVary && ob.GatherErr != "") { // (after a Gather error the partial result is not stable: judged by CHelp)
 		w.Violation("two consecutive scrapes with no measurement in between exposed different families", desc)
 		return
 	}
@@ -1528,6 +1575,41 @@ func emit(w *vgen.Writer, sc Scenario, ob Obs) {
 	scheme := "legacy"
 	if sc.UTF8 {
 		scheme = "utf8"
+	}
+	descsDiffer := false
+	for _, d := range sc.ExtraDescs {
+		descsDiffer = descsDiffer || d != sc.Desc
+	}
+	if len(sc.ExtraDescs) > 0 {
+		ds := []string{vgen.HxS(sc.Desc)}
+		for _, d := range sc.ExtraDescs {
+			ds = append(ds, vgen.HxS(d))
+		}
+		help := ""
+		if len(ob.Families) == 1 {
+			help = ob.Families[0].Help
+		}
+		t := vgen.App("CHelp", vgen.List(ds), vgen.Bool(ob.GatherErr != ""), vgen.Nat(len(ob.Families)), vgen.HxS(help))
+		w.Tally("descriptions-differ-across-meters")
+		w.Add(t, map[string]any{"descriptions": append([]string{sc.Desc}, sc.ExtraDescs...), "gather_err": ob.GatherErr, "families": ob.Families, "utf8": sc.UTF8}, "help-"+scheme, true)
+		if descsDiffer && ob.GatherErr != "" {
+			return // the family is incomplete after a Gather error: CHelp carries the verdict
+		}
+	}
+	if !sc.NoScope && ob.ScopeInfo && len(sc.ScopeAttrs) > 0 && len(sc.ExtraScopes) == 0 && len(ob.Families) == 1 {
+		var keys, scopes []string
+		for _, a := range sc.ScopeAttrs {
+			keys = append(keys, runes(a.K, true))
+		}
+		for _, srs := range ob.Families[0].Series {
+			if srs.Scope != nil {
+				scopes = append(scopes, vgen.Some(vgen.Pair(vgen.HxS(srs.Scope.K), vgen.HxS(srs.Scope.V))))
+			} else {
+				scopes = append(scopes, vgen.None)
+			}
+		}
+		t := vgen.App("CScopeName", vgen.Bool(sc.UTF8), vgen.HxS(sc.ScopeName), vgen.HxS(sc.ScopeVer), vgen.List(keys), attrsCoq(ob.ScopeInfoLabels, false), vgen.List(scopes))
+		w.Add(t, map[string]any{"scope": sc.ScopeName, "version": sc.ScopeVer, "scope_attributes": sc.ScopeAttrs, "otel_scope_info_labels": ob.ScopeInfoLabels, "utf8": sc.UTF8}, "scope-name-"+scheme, true)
 	}
 	cbErrors := uint64(0)
 	if sc.FailingCallback {
